@@ -278,12 +278,15 @@ class Engine:
                         yield a[:i] + [c] + a[i + 1:]
 
         improved = True
+        t_end = time.time() + 45            # a hanging implementation call costs a full time limit per trial
+        t_before = TIMEOUTS[0]
         while improved and budget > 0:
             improved = False
             for i, a in enumerate(best["args"]):
                 for c in cands(a):
                     budget -= 1
-                    if budget <= 0:
+                    if budget <= 0 or time.time() > t_end or TIMEOUTS[0] > t_before + 1:
+                        budget = 0
                         break
                     trial = best["args"][:i] + [c] + best["args"][i + 1:]
                     try:
